@@ -5,6 +5,8 @@ import LhasaV.Lemmas.ExtractTree
 import LhasaV.Lemmas.CliProps
 import LhasaV.Lemmas.ArchiveOf
 import LhasaV.Lemmas.MessagesAgree
+import LhasaV.Lemmas.ArchivePack
+import LhasaV.Lemmas.ExtractTreeOpt
 /-!
 # C06 — extraction reproduces the archived tree: contents, names, times, modes, links
 -/
@@ -267,5 +269,65 @@ theorem extract_models_agree (archive : Array UInt8) (o : Opts) (fs : Fs.St) (an
       (Extract.run archive o fs answers).opts = (Messages.run .extract archive o fs answers).x.opts ∧
       (Extract.run archive o fs answers).answers = (Messages.run .extract archive o fs answers).x.answers) :=
   MessagesAgree.run_agree archive o fs answers hd hp hs
+
+/-! ## every method; and the options `i`, `w=DIR`, wildcards -/
+
+open ExtractTree ExtractTree.Sample ArchiveOf ArchivePack Contain in
+/-- **Every method with a decoder round trip.** For each of stored, `-lzs-`, `-lz5-`, `-lh1-`,
+`-lh4-` … `-lh7-`, `-lhx-`, `-pm1-`, `-pm2-`, header level 1 or 2, and EVERY well-formed encodable
+tree whose files meet the method's size condition: `lha x` of the bytes (headers by the C05
+encoder, member data by the METHOD'S SPECIFICATION ENCODER — C01/C02/C03/C04 round trips) reproduces
+exactly the tree. (`-lk7-` cannot be written by this builder: LHark stores `-lh7-` under OS type ' '.) -/
+theorem extract_reproduces_tree_all_methods :
+    ∀ m ∈ Method.all, ∀ (l1 : Bool) (es : List Entry), WellFormed es → Encodable es → FilesSat m.fits es →
+      ∀ (o : Opts) (fs : Fs.St) (answers : Bytes), OptsOk o → EmptyDir fs → Access fs →
+        Reproduces (archiveWith (m.packer l1) es) es o fs answers :=
+  ArchivePack.extract_archive_all_methods
+
+open ExtractTree ExtractTree.Sample ArchiveOf Contain in
+/-- **Wildcard arguments select exactly the matching members**: with patterns `o.filters`, the
+extracted tree is the tree of the SELECTED entries (`selected` = `*` any run, `?` one byte on the
+stored path, `glob_iff`), provided the selection is closed under parents (implicitly created
+parents are outside this theorem; the tie covers them). On bytes, no reader hypothesis. -/
+theorem extract_selected (es : List Entry) (o : Opts) (fs : Fs.St) (answers : Bytes)
+    (hwf : WellFormed es) (hcl : ParentClosed (selected o.filters) es) (henc : Encodable es)
+    (hx : o.extractPath = none) (hu : o.usePath = true) (hfs : EmptyDir fs) (ha : Access fs) :
+    (run (archiveOf es) o fs answers).result = true ∧
+    (∀ p, p ≠ [] → Fs.lookup (run (archiveOf es) o fs answers).fs (fs.cwd ++ p) =
+      treeOf fs.now fs.umask (es.filter (selected o.filters)) p) ∧
+    (∀ x, ¬ fs.cwd <+: x → Fs.lookup (run (archiveOf es) o fs answers).fs x = Fs.lookup fs x) :=
+  ArchiveOf.extract_archiveOf_closed es o fs answers hwf hcl henc hx hu hfs ha
+
+open ExtractTree ExtractTree.Sample ArchiveOf Contain in
+/-- **`w=DIR` relocates the tree, creating DIR**: the tree appears below `cwd/DIR`; the missing
+components of DIR are created (0755 under the umask, `MadeFrom`), an existing DIR keeps its mode;
+nothing else changes. DIR = clean relative components; nothing below its place beforehand. -/
+theorem extract_relocated (es : List Entry) (o : Opts) (fs : Fs.St) (answers : Bytes)
+    (ds : List Bytes) (k : Nat) (hwf : WellFormed es) (henc : Encodable es)
+    (hne : ds ≠ []) (hx : o.extractPath = some (joinPath ds)) (hu : o.usePath = true) (hnf : o.filters = [])
+    (hb : BaseOk fs ds k) (ha : AccessW fs) (hdepth : ∀ e ∈ es, ds.length + e.path.length < 64) :
+    (run (archiveOf es) o fs answers).result = true ∧
+    (∀ p, p ≠ [] → Fs.lookup (run (archiveOf es) o fs answers).fs (fs.cwd ++ ds ++ p) =
+      treeOf fs.now fs.umask es p) ∧
+    (es ≠ [] → ∃ m t0, Fs.lookup (mkBase fs ds) (fs.cwd ++ ds) = some (.dir m t0) ∧
+      Fs.lookup (run (archiveOf es) o fs answers).fs (fs.cwd ++ ds) = some (.dir m fs.now)) ∧
+    (es ≠ [] → ∀ x, ¬ (fs.cwd ++ ds) <+: x →
+      Fs.lookup (run (archiveOf es) o fs answers).fs x = Fs.lookup (mkBase fs ds) x) ∧
+    MadeFrom fs (mkBase fs ds) (ds.take k) (ds.drop k) :=
+  ArchiveOf.extract_archiveOf_reloc es o fs answers ds k hwf henc hne hx hu hnf hb ha hdepth
+
+open ExtractTree ExtractTree.Sample ArchiveOf Contain in
+/-- **Option `i` flattens**: directory entries are ignored and every selected file / link lands
+directly in the extraction directory under its own name (pairwise distinct names; any order of the
+entries; wildcards allowed). -/
+theorem extract_flattened (es : List Entry) (o : Opts) (fs : Fs.St) (answers : Bytes)
+    (hok : ∀ e ∈ es, EntryOk e) (henc : Encodable es)
+    (hnames : ((es.filter (fun e => selected o.filters e && !e.isDir)).map Entry.namePart).Nodup)
+    (hx : o.extractPath = none) (hu : o.usePath = false) (hfs : EmptyDir fs) (ha : Access fs) :
+    (run (archiveOf es) o fs answers).result = true ∧
+    (∀ p, p ≠ [] → Fs.lookup (run (archiveOf es) o fs answers).fs (fs.cwd ++ p) =
+      flatTreeOf fs.now fs.umask (es.filter (selected o.filters)) p) ∧
+    (∀ x, ¬ fs.cwd <+: x → Fs.lookup (run (archiveOf es) o fs answers).fs x = Fs.lookup fs x) :=
+  ArchiveOf.extract_archiveOf_flat es o fs answers hok henc hnames hx hu hfs ha
 
 end LhasaV.Props.C06
